@@ -160,6 +160,28 @@ def s_gemv(n: size, m: size, A: f32[n, m], x: f32[m], y: f32[n]):
         y[i] = acc
 
 
+@seed("loop2", "reduce", "alloc")
+@proc
+def s_gemv_acc_outer(n: size, m: size, A: f32[n, m], x: f32[m], y: f32[n]):
+    # accumulator shared by all iterations of i and re-initialised in each: loop-carried through `acc`
+    acc: f32
+    for i in seq(0, n):
+        acc = 0.0
+        for j in seq(0, m):
+            acc += A[i, j] * x[j]
+        y[i] = acc
+
+
+@seed("loop2", "reduce", "par")
+@proc
+def s_two_i_loops(x: f32[8], y: f32[8], z: f32[16]):
+    # two sibling loops whose iterators print the same; textually equal sub-expressions y[i]
+    for i in seq(0, 8):
+        z[i] = x[i] * y[i]
+    for i in seq(0, 8):
+        z[8 + i] += x[i] * y[i]
+
+
 @seed("loop3", "reduce")
 @proc
 def s_gemm(n: size, m: size, k: size, A: f32[n, k], B: f32[k, m], C: f32[n, m]):
